@@ -110,6 +110,11 @@ pub struct BuiltinRuntime {
 }
 
 impl BuiltinRuntime {
+    #[cfg(feature = "verif-hooks")]
+    pub fn verif_args(&self) -> &[Value] {
+        &self.args
+    }
+
     pub fn new(fun: DefaultFunction) -> BuiltinRuntime {
         Self {
             args: vec![],
